@@ -219,8 +219,8 @@ theorem doublings_on_curve (n : Nat) (p : Pt) (hp : onCurve p = true) :
     · exact ih _ (edAddOrId_on_curve p p hp hp) m hm
 
 open Composer in
-/-- entry `i` of the table is `[2^i]G` (under the group hypothesis: needs associativity) -/
-theorem doublings_getElem? (H : JubjubGroupFacts) (n : Nat) (p : Pt) (hp : onCurve p = true)
+/-- entry `i` of the table is `[2^i]G` (uses associativity, which is proved) -/
+theorem doublings_getElem? (n : Nat) (p : Pt) (hp : onCurve p = true)
     (i : Nat) (m : Pt) (h : (doublings n p)[i]? = some m) :
     toFP m = smulF (2 ^ i) (toFP p) := by
   induction n generalizing p i with
@@ -234,6 +234,6 @@ theorem doublings_getElem? (H : JubjubGroupFacts) (n : Nat) (p : Pt) (hp : onCur
       simp only [doublings, List.getElem?_cons_succ] at h
       have hP : OnCurveP (toFP p) := (onCurve_iff_P p).mp hp
       rw [ih _ (edAddOrId_on_curve p p hp hp) i h, toFP_edAddOrId p p hp hp, ← smulF_two,
-        ← H.smulF_mul _ _ hP, pow_succ]
+        ← smulF_mul _ _ hP, pow_succ]
 
 end Plonk
